@@ -17,17 +17,17 @@ REAL_E4 = ("real: internal/mvs (BuildList, Get, UpgradeAll, Tidy, Reqs, Resolver
 
 CHECKS = {
     "C04": dict(engine="runner", category="exploration",
-                text="Seeded deterministic simulation of the real runner over generated dependency graphs (<=12 labels; chains, trees, diamonds, DAGs, back-edges, self-loops, overlapping cycles, failing/unknown targets), limits 1..16, four scheduler strategies. Oracle at every yield: <=1 LoadTarget and <=1 Evaluate per label; on return of every dependency request every requested label has finished and the handed error/target are the actual ones; Run returns the root's outcome. Sampling, not proof.",
+                text="Seeded deterministic simulation of the real runner over generated dependency graphs (<=12 labels; chains, trees, diamonds, DAGs, back-edges, self-loops, overlapping cycles, failing/unknown targets), limits 1..16, four scheduler strategies. Oracle at every yield: <=1 LoadTarget and <=1 Evaluate per label; on return of every dependency request every requested label has finished and the handed error/target are the actual ones; Run returns the root's outcome. 6 of the 16 workers run the project-level form instead: real multi-package projects (diamonds, cycles, unknown and failing targets) loaded and built by the real Project/runner, oracle on the execution log (each body at most once, after the end of every dependency that ran, never after a failed dependency; build result = requested target's result). Sampling, not proof.",
                 note="Interleavings are explored at sync/atomic/sync.Map/go points (sequentially consistent between them); plain-memory races between two such points are not explored. Targets are synthetic.",
-                technique="deterministic simulation: seeded scheduler over instrumented sync/atomic, invariant monitors at every yield",
-                design="§4 C04", real=REAL_E1,
+                technique="deterministic simulation: seeded scheduler over instrumented sync/atomic, invariant monitors at every yield; plus the project-level form on real projects (E2)",
+                design="§4 C04, §12.2", real=REAL_E1 + " || project-level form: " + REAL_E2, also="dawn",
                 rule="seeded graph x scheduler strategy x schedule tape; one case = one simulated runner.Run; distinct_nontrivial = distinct (scenario hash, interleaving trace hash) with >=1 scheduling choice among >=2 runnable goroutines",
                 assumptions=["scheduler granularity = synchronisation points", "synthetic targets issue one (or two) dependency requests then yield 0-3 times"]),
     "C05": dict(engine="runner", category="exploration",
-                text="Same engine as C04. Oracle: the simulated Run returns within the step budget under every sampled schedule and limit (simulator-detected deadlock = all goroutines blocked; budget exhaustion under a fair scheduler = livelock); reachable cycle <=> build fails and some target is handed CyclicDependencyError; acyclic => never. Sampling, not proof.",
+                text="Same engine as C04. Oracle: the simulated Run returns within the step budget under every sampled schedule and limit (simulator-detected deadlock = all goroutines blocked; budget exhaustion under a fair scheduler = livelock); reachable cycle <=> build fails and some target is handed CyclicDependencyError; acyclic => never. 6 of the 16 workers run the project-level form: real projects whose target graphs contain cycles/unknown dependencies, built under limits 1..16; a simulator-detected deadlock or budget exhaustion of Load+Run is a violation, and the cycle oracle is evaluated on TargetFailed events. Sampling, not proof.",
                 note="Fairness: a goroutine chosen 128 times in a row yields to the longest-waiting runnable one, so spin-waits in cycle detection are not reported unless they exhaust 100000 steps.",
-                technique="deterministic simulation: seeded scheduler, deadlock/livelock detection, cycle oracle from an independent graph model",
-                design="§4 C05", real=REAL_E1,
+                technique="deterministic simulation: seeded scheduler, deadlock/livelock detection, cycle oracle from an independent graph model; plus the project-level form on real projects (E2)",
+                design="§4 C05, §12.2", real=REAL_E1 + " || project-level form: " + REAL_E2, also="dawn",
                 rule="as C04; probes count cyclic graphs and handed cycle errors",
                 assumptions=["termination is judged under fair schedules (fairness bound 128)", "step budget 100000 per build (typical builds use 30-300 steps)"]),
     "C09": dict(engine="runner", category="exploration",
@@ -141,7 +141,7 @@ def main():
     engines = [
         {"name": "runner", "path": "harness/runner", "serves_properties": [p for p in sorted(CHECKS) if CHECKS[p]["engine"] == "runner"],
          "kind_free_text": "E1: real runner.Run over synthetic targets under the simulated scheduler"},
-        {"name": "dawn", "path": "harness/dawn", "serves_properties": [p for p in sorted(CHECKS) if CHECKS[p]["engine"] == "dawn"],
+        {"name": "dawn", "path": "harness/dawn", "serves_properties": [p for p in sorted(CHECKS) if CHECKS[p]["engine"] == "dawn" or CHECKS[p].get("also") == "dawn"],
          "kind_free_text": "E2/E3: real projects on a simulated disk (Load+Run histories, crashes, corruption) and the Cache.once engine"},
         {"name": "mvs", "path": "harness/mvs", "serves_properties": [p for p in sorted(CHECKS) if CHECKS[p]["engine"] == "mvs"],
          "kind_free_text": "E4: real resolver + pgavlin/mvs workers over simulated repositories"},
